@@ -96,7 +96,9 @@ func randStyle(r *Rng, renameFrom []string) *asm.Style {
 		s.CommentPct, s.TrailPct = 20, 30
 	}
 	if r.Chance(1, 8) {
-		s.AfterEnd = []string{"this text is ignored", "mov 1, 2\n dat 0", "; comment after end", "\n\n"}[r.Intn(4)]
+		// anything may follow the END line: prose, code, characters and lone operators the lexer has no token for
+		s.AfterEnd = []string{"this text is ignored", "mov 1, 2\n dat 0", "; comment after end", "\n\n", "score = 142", "a | b & c = d", "100% done! ~ ` \\ \x01\x7f",
+			"x equ y\n i for 3\n dat i", "rof\nrof\nend 7", "dat 1/0\nmov 1,", "\u00e9t\u00e9 \ufffd \x1a"}[r.Intn(11)]
 		s.WithEnd = true
 	}
 	return s
